@@ -1578,3 +1578,64 @@ Qed.
 
 (* used in the statements of Props.v: the edge sort is a permutation of the applicable offers *)
 Definition order_perm (E : env) : Prop := forall p l, Permutation (e_order E p l) l.
+
+(* ================= histories: the law at every query of every history ================= *)
+Lemma hstep_next fuel st o : fst (hstep fuel st o) = hnext st o.
+Proof. destruct o; reflexivity. Qed.
+
+(* no query of the history ran out of fuel *)
+Definition answered (h : list (hop * option outcome)) : Prop := forall o, In (o, Some OOutOfFuel) h -> False.
+
+(* every query is asked in a state whose applicable from-protocols are comparable (see exec_comparable) *)
+Fixpoint hcomparable (st : hstate) (ops : list hop) : Prop :=
+  match ops with
+  | [] => True
+  | o :: r => match o with HQuery q => exec_comparable (config_of st q) | _ => True end /\ hcomparable (hnext st o) r
+  end.
+
+Lemma hrun_law_except_specificity fuel : forall ops st i, answered (hrun fuel st ops) ->
+  forall c, In c (hlaw i st (hrun fuel st ops)) -> exists j, c = (100 * j + 6)%Z.
+Proof.
+  induction ops as [|o r IH]; intros st i Ha c Hc; [destruct Hc|]. cbn [hrun] in *.
+  pose proof (hstep_next fuel st o) as Hn. destruct (hstep fuel st o) as [st' ob] eqn:St. cbn [fst] in Hn. subst st'.
+  cbn [hlaw] in Hc. apply in_app_or in Hc. destruct Hc as [Hc|Hc].
+  - destruct o as [q| |]; cbn in St; inversion St; subst ob; try destruct Hc.
+    apply in_map_iff in Hc. destruct Hc as (c0 & <- & Hc0). exists i. f_equal.
+    apply (exec_law_except_specificity (config_of st q) fuel (snd q)); [|exact Hc0].
+    intros Ho. apply (Ha (HQuery q)). left. rewrite Ho. reflexivity.
+  - apply (IH (hnext st o) (i + 1)%Z); [|exact Hc]. intros o' Ho'. apply (Ha o'). right. exact Ho'.
+Qed.
+
+Lemma hrun_law_when_comparable fuel : forall ops st i, answered (hrun fuel st ops) -> hcomparable st ops ->
+  hlaw i st (hrun fuel st ops) = [].
+Proof.
+  induction ops as [|o r IH]; intros st i Ha Hc; [reflexivity|]. cbn [hrun] in *.
+  pose proof (hstep_next fuel st o) as Hn. destruct (hstep fuel st o) as [st' ob] eqn:St. cbn [fst] in Hn. subst st'.
+  cbn [hlaw]. destruct Hc as [Hq Hr].
+  rewrite (IH (hnext st o) (i + 1)%Z); [|intros o' Ho'; apply (Ha o'); right; exact Ho'|exact Hr].
+  rewrite app_nil_r. destruct o as [q| |]; cbn in St; inversion St; subst ob; try reflexivity.
+  rewrite (exec_law_when_comparable (config_of st q) Hq fuel (snd q)); [reflexivity|].
+  intros Ho. apply (Ha (HQuery q)). left. rewrite Ho. reflexivity.
+Qed.
+
+(* with the fuel bound: a history whose registry never holds more than k offers is always answered with fuel > T k *)
+Lemma T_mono a b : a <= b -> T a <= T b.
+Proof.
+  induction 1 as [|b Hab IH]; [lia|]. cbn [T]. pose proof (Nat.le_0_l (b * T b)). lia.
+Qed.
+Lemma number_offers_length l : forall i, length (number_offers i l) = length l.
+Proof. induction l as [|[[a b] c] l IH]; intros i; cbn; [reflexivity|]. rewrite IH. reflexivity. Qed.
+Fixpoint offers_bounded (k : nat) (st : hstate) (ops : list hop) : Prop :=
+  length (h_offers st) <= k /\ match ops with [] => True | o :: r => offers_bounded k (hnext st o) r end.
+Lemma hrun_answered fuel k : T k < fuel -> forall ops st, offers_bounded k st ops -> answered (hrun fuel st ops).
+Proof.
+  intros Hf. induction ops as [|o r IH]; intros st Hb o' Hin; [destruct Hin|]. cbn [hrun] in Hin.
+  pose proof (hstep_next fuel st o) as Hn. destruct (hstep fuel st o) as [st' ob] eqn:St. cbn [fst] in Hn. subst st'.
+  destruct Hb as [Hk Hr]. destruct Hin as [Hin|Hin].
+  - inversion Hin; subst. destruct o' as [q|s0 m0|x]; cbn in St; [|discriminate St|discriminate St]. inversion St as [Hq].
+    apply (run_api_terminates (env_of (config_of st q)) (env_of_order_perm _) fuel (snd q)); [|exact Hq].
+    assert (length (e_offers (env_of (config_of st q))) = length (h_offers st)) as ->.
+    { destruct q as [[[a b] f] ap]. cbn. apply number_offers_length. }
+    pose proof (T_mono _ _ Hk). lia.
+  - apply (IH (hnext st o) Hr o' Hin).
+Qed.
